@@ -16,4 +16,22 @@ def full2 (r c v : Nat) : List (List Nat) := List.replicate r (List.replicate c 
 /-- `itertools.permutations(l)` as a collection (its order does not matter to a minimum) -/
 def permutations (l : List Nat) : List (List Nat) := permsOf l
 
+/-- a float that may be `math.inf` / `-math.inf`; finite values are integers in units of 1/64 -/
+inductive Ext | negInf | fin (v : Int) | posInf
+deriving Repr, DecidableEq, Inhabited
+
+/-- Python's `min` / `max` on two such numbers -/
+def Ext.min : Ext → Ext → Ext
+  | .negInf, _ => .negInf
+  | _, .negInf => .negInf
+  | .posInf, b => b
+  | a, .posInf => a
+  | .fin a, .fin b => .fin (Min.min a b)
+def Ext.max : Ext → Ext → Ext
+  | .posInf, _ => .posInf
+  | _, .posInf => .posInf
+  | .negInf, b => b
+  | a, .negInf => a
+  | .fin a, .fin b => .fin (Max.max a b)
+
 end NASim.PyRt
